@@ -124,7 +124,9 @@ contract(
     MG + "detect_db_files",
     params={"data_dir": "str", "datastore_name": "Optional[str]", "version": "Optional[int]"}, returns="List[str]",
     requires=[], ensures=["fresh(result)"], modifies=["alloc"], writes_fresh=["List.len", "List.items"], raises=[], trusted=True,
-    note="os.listdir and file-name matching: the file system is outside the verifier's reach",
+    note="os.listdir and file-name matching: the file system is outside the verifier's reach.  Assumed of the environment (A-DATADIR): "
+         "every file in the data directory whose name up to the first dot equals the legacy database name does contain a dot - "
+         "`filename.split('.')[1]` raises IndexError otherwise, and SqliteStorage.__init__ with it",
 )
 contract(
     MG + "check_for_migration",
